@@ -54,8 +54,12 @@ def dump_to_sql(repo, out, target_dir):
 
 
 if __name__ == "__main__":
-    repo, out = sys.argv[1], sys.argv[2]
-    td = sys.argv[3] if len(sys.argv) > 3 else os.path.join(os.path.dirname(os.path.abspath(out)), "mir-target")
+    # all paths absolute: cargo runs inside the repository, and a relative target directory would
+    # be created there
+    repo, out = os.path.abspath(sys.argv[1]), os.path.abspath(sys.argv[2])
+    td = os.path.abspath(sys.argv[3]) if len(sys.argv) > 3 else os.path.join(os.path.dirname(out), "mir-target")
+    if len(sys.argv) > 4:
+        sys.argv[4] = os.path.abspath(sys.argv[4])
     ok, secs = dump(repo, out, td)
     print(f"mir dump {'ok' if ok else 'FAILED'} in {secs:.1f}s -> {out}")
     if ok and len(sys.argv) > 4:
